@@ -2843,12 +2843,30 @@ fn main() {
 
     // assumption scan (vacuity guard (d))
     let mut assumptions = vec![];
-    for (n, l) in final_out.lines().enumerate() {
+    let all_lines: Vec<&str> = final_out.lines().collect();
+    for (n, l) in all_lines.iter().enumerate() {
         let t = l.trim();
         if t.starts_with("//") { continue; }
         for pat in ["assume(", "admit()", "external_body", "assume_specification", "external_type_specification", "#[verifier::external", "exec_allows_no_decreases_clause", "accept_recursive_types"] {
             if t.contains(pat) {
-                assumptions.push(format!("{}:{}: {}", if n < prelude_lines { "prelude" } else { "generated" }, n + 1, t));
+                // an attribute on a line of its own says nothing: add the item it is attached to (first following line that is no attribute)
+                let mut what = t.to_string();
+                if t.starts_with("#[") && t.ends_with(']') {
+                    let mut k = n + 1;
+                    let mut depth = 0i32;
+                    while k < all_lines.len() && k < n + 40 {
+                        let u = all_lines[k].trim();
+                        // skip attribute lines, including multi-line #[verus_spec( .. )] blocks
+                        if depth > 0 || u.starts_with("#[") || u.starts_with("//") {
+                            depth += u.matches('(').count() as i32 + u.matches('[').count() as i32 - u.matches(')').count() as i32 - u.matches(']').count() as i32;
+                            if depth < 0 { depth = 0; }
+                            k += 1; continue;
+                        }
+                        what = format!("{} {}", t, u.chars().take(160).collect::<String>());
+                        break;
+                    }
+                }
+                assumptions.push(format!("{}:{}: {}", if n < prelude_lines { "prelude" } else { "generated" }, n + 1, what));
                 break;
             }
         }
